@@ -194,8 +194,11 @@ def run(ctx):
         return {"level": "aggregate", "group": gjobs[gi]["groups"]["g"], "rows": gjobs[gi]["files"]["f"], "method": o["method"],
                 "members": [{k2: m[k2] for k2 in ("identity", "is_valid", "result_is_valid", "started")} for m in o["members"]],
                 "results_manager_is_valid": o["rm_is_valid"], "manifest": o["inspect"]}
+    # D12 is about a member that READ NO RECORD (its run never started): an "unstarted" member whose line monitor has counted lines is not that
+    never_read = lambda m: not m["started"] and (m.get("pln") is None or m["pln"] < 0)
     d12 = [k for k in abad["c04a_spec"] if k not in abad["c04a_agree"] and
-           not all(m["started"] for m in gres[aidx[k]]["runs"][0]["members"])]
+           any(never_read(m) for m in gres[aidx[k]]["runs"][0]["members"]) and
+           all(m["started"] or never_read(m) for m in gres[aidx[k]]["runs"][0]["members"])]
     a_other = [k for k in sorted(abad["c04a_spec"]) if k not in d12]
     broken_groups = [gi for gi, r in enumerate(gres) if r["setup_exc"] or (r["runs"] and r["runs"][0]["exc"])]
 
